@@ -693,6 +693,7 @@ class MachineDriftJob:
         if self.tier == "quick" and self.fmt == "fastq":
             maxlen -= 1          # the comparison (not the refinement check) on a smaller space in the quick tier
         consts = re.sub(r"MaxLen = \d+", "MaxLen = %d" % maxlen, consts)
+        consts = re.sub(r"MaxFail = \d+", "MaxFail = 0", consts)      # the comparison runs without source faults
         open(snapcfg, "w").write(re.sub(r"MaxOps = \d+", "MaxOps = %d" % depth, consts).replace("INVARIANT Refines", "INVARIANT Emit"))
         cmd = vlib.java_cmd("6g", serial=False) + ["-workers", "1", "-metadir", os.path.join(wd, "mdsnapm" + self.fmt), "-cleanup", "-noGenerateSpecTE", "-config", snapcfg, spec + ".tla"]
         env = dict(os.environ)
@@ -752,12 +753,12 @@ class MachineDriftJob:
 
 def mc_fasta_machine(tier):
     return McJob("fastamachine", "MCFastaMachine", "MCFastaMachine_" + tier, ["C04"], workers=10, timeout=q(tier, 900, 10800), xmx="10g", coverage=False,
-                 inv_props={"Refines": ["C04", "C05", "C09", "C06"]})
+                 inv_props={"Refines": ["C04", "C05", "C09", "C06", "C14"]})
 
 
 def mc_fastq_machine(tier):
     return McJob("fastqmachine", "MCFastqMachine", "MCFastqMachine_" + tier, ["C04"], workers=10, timeout=q(tier, 900, 10800), xmx="10g", coverage=False,
-                 inv_props={"Refines": ["C04", "C05", "C09", "C06"]})
+                 inv_props={"Refines": ["C04", "C05", "C09", "C06", "C14"]})
 
 
 _old_build_jobs5 = build_jobs
@@ -767,6 +768,6 @@ def build_jobs(prop, tier):
     J = _old_build_jobs5(prop, tier)
     if prop == "C04":
         J = [mc_fasta_machine(tier), mc_fastq_machine(tier)] + J + [MachineDriftJob("fasta", tier), MachineDriftJob("fastq", tier)]
-    elif prop == "C05":
+    elif prop in ("C05", "C06", "C14"):
         J = [mc_fasta_machine(tier), mc_fastq_machine(tier)] + J
     return J
